@@ -19,6 +19,8 @@ func init() {
 			helperReadMessageRules(c, "C08")
 			// the control frames the handlers see passed CheckHeader first (125-byte limit, final, masking)
 			c03CheckHeader(c)
+			// the control writer sits on Writer.Write / Flush: no frame leaves before Flush, one final frame then
+			writerMethodRules(c, "C08")
 		},
 	})
 }
